@@ -403,4 +403,13 @@ def run(ctx, chk):
     _cacheA = _OA.PathCache(prog, eff)
     check_automaton(chk, "C19.automaton", prog, eff, _cacheA, _tsA.CallSites(prog, eff, _cacheA, _H, _PA))
     check_record_items(chk, "C19.record-items", prog, eff)
+    chk.rule("C19.balance", "every owned reference is released, handed off or returned exactly once on every path; a reference the function does not own "
+             "is not released (a setter that drops the item it replaces, a refusal that releases what its caller still releases: the block is "
+             "used after it is gone; shared with C06.release)")
+    import ownership as _Ob
+    from props.c06 import check_balance as _cb
+    import tables as _tb
+    _cbc = _Ob.PathCache(prog, eff)
+    _Nb = _Ob.Nullness(prog, eff, _cbc)
+    _cb(chk, "C19.balance", prog, eff, _cbc, _Nb, _Ob.Balance(prog, eff, _cbc, _Nb), _tb.constructors(prog, eff), floor=60)
     chk.exhaustive = True
